@@ -80,7 +80,7 @@ claim("C11",
 
 claim("C12",
   "differential testing over execution contexts: two instances, 16 barrier-started threads, freshly started child processes",
-  "Exploration: 6e3/1.2e5 generated computation specs covering every sketcher type and entry point (incl. std HashMap whose iteration order differs per instance) are computed twice in-thread and in 16 concurrent threads; 3e4/6e5 specs through the std-HashMap entry points in eight instances each fed a new map; 400/6000 specs additionally in 3/6 child processes (new ASLR, RandomState, ThreadRng). All sketch views must be bit-identical.",
+  "Exploration: 6e3/1.2e5 generated computation specs covering every sketcher type and entry point (incl. std HashMap whose iteration order differs per instance) are computed twice in-thread and in 16 concurrent threads; 3e4/6e5 specs through the std-HashMap entry points in eight instances each fed a new map; 400/6000 specs additionally in 3/6 child processes (new ASLR, RandomState, ThreadRng; one with the log level at Trace) and in a probe built against the crate without the verif-hooks feature. All sketch views must be bit-identical.",
   "Thread interleavings are sampled, not enumerated; the sketchers share no mutable state, the search targets hidden per-instance / per-thread / per-process inputs.",
   "DESIGN.md 5/C12")
 
